@@ -34,7 +34,7 @@ def histories(draw, kind):
         hp["nesterov"] = bool(hp["momentum"] > 0 and hp["dampening"] == 0 and draw(st.booleans()))
     else:
         hp["betas"] = [draw(st.sampled_from([0.9, 0.5, 0.99, 0.1])), draw(st.sampled_from([0.999, 0.9, 0.5, 0.99]))]
-        hp["eps"] = draw(st.sampled_from([1e-8, 1e-10, 1e-4, 1e-2]))
+        hp["eps"] = draw(st.sampled_from([1e-8, 1e-10, 1e-4, 1e-2, 0.0, 0]))
     nparams = draw(st.sampled_from([1, 2, 2, 3, 3, 5]))
     params = []
     for _ in range(nparams + 1):           # the last one is NOT given to the optimizer
@@ -47,12 +47,24 @@ def histories(draw, kind):
     steps.append({"k": "backward", "c": [draw(st.integers(-16, 16)) / 8.0 for _ in range(6)],
                   "mask": draw(st.sampled_from([[1, 1, 1, 1], [1, 1, 1, 1], [1, 0, 1, 1], [0, 1, 1, 0]]))})
     for _ in range(draw(st.sampled_from([3, 5, 8, 12, 18, 18, 40]))):
-        k = draw(st.sampled_from(["backward", "backward", "step", "step", "step", "zero_grad"]))
+        k = draw(st.sampled_from(["backward", "backward", "step", "step", "step", "zero_grad", "toggle"]))
         if k == "backward":
             steps.append({"k": "backward", "c": [draw(st.integers(-16, 16)) / 8.0 for _ in range(6)],
                           "mask": draw(st.sampled_from([[1, 1, 1, 1], [1, 1, 1, 1], [1, 0, 1, 1], [0, 1, 1, 0], [0, 0, 1, 1], [1, 1, 0, 1]]))})
+        elif k == "toggle":
+            steps.append({"k": "toggle", "i": draw(st.integers(0, 5))})
         else:
             steps.append({"k": k})
+    if hp.get("eps", 1) == 0:
+        # with eps = 0 a zero gradient is 0/0 in the published rule itself: keep gradients away from zero
+        for s_ in steps:
+            if s_["k"] == "backward":
+                s_["c"] = [v if v != 0 else 0.125 for v in s_["c"]]
+                s_["mask"] = [1, 1, 1, 1]
+        steps = [s_ for s_ in steps if s_["k"] not in ("zero_grad", "toggle")]
+        hp["weight_decay"] = 0
+        for p_ in params:
+            p_["frozen"] = False
     return {"opt": kind, "hp": hp, "params": params, "steps": steps, "dtype": draw(gen.DTYPES)}
 
 
@@ -153,11 +165,22 @@ def check_history(c, rec):
             if since_zero_backwards >= 2:
                 flags.add("accumulated_backward")
             last_was_step = False
+        elif s["k"] == "toggle":
+            # freeze / unfreeze a parameter in the middle of the run (fine-tuning); what counts is the flag at step time
+            i = s["i"] % n
+            frozen[i] = not frozen[i]
+            ps[i].requires_grad = not frozen[i]
+            flags.add("requires_grad_toggled")
+            last_was_step = False
         elif s["k"] == "zero_grad":
             opt.zero_grad()
             for i in range(n):
-                if not frozen[i]:
+                if not frozen[i] or has_grad[i]:
+                    # (a parameter frozen at the moment still has its buffer zeroed; it matters again once unfrozen)
                     egrad[i] = np.zeros(ps[i].shape)
+                    has_grad[i] = True
+                elif ps[i].grad is not None:
+                    egrad[i] = np.asarray(ps[i].grad.data, dtype=np.float64).copy()
                     has_grad[i] = True
             since_zero_backwards = 0
             last_was_step = False
@@ -195,8 +218,15 @@ def check_history(c, rec):
                     raise Violation("dtype_shape_changed", f"{kind}.step(): parameter {i} is now {p.dtype}{p.shape}; history={hist}")
                 got = np.asarray(p.data, dtype=np.float64)
                 want = ref.theta[i]
-                scale = max(1.0, float(np.abs(want).max()) if want.size else 1.0)
-                if want.size and (not np.all(np.isfinite(got)) or np.abs(got - want).max() > tol * scale):
+                scale = max(1.0, float(np.nanmax(np.abs(want))) if want.size and np.any(np.isfinite(want)) else 1.0)
+                if hp.get("eps", 1) == 0 and not np.all(np.isfinite(want)):
+                    # eps = 0 and an accumulated gradient of exactly zero: the published rule itself is 0/0 here
+                    if np.array_equal(np.isnan(got), np.isnan(want)):
+                        ref.theta[i] = got.copy()
+                        continue
+                fin = np.isfinite(want)
+                if want.size and (not np.all(np.isfinite(got[fin])) or np.abs(got[fin] - want[fin]).max(initial=0.0) > tol * scale
+                                  or not np.array_equal(np.isfinite(got), fin)):
                     raise Violation("trajectory", f"{kind} step #{nsteps}: parameter {i} = {got.ravel()[:4].tolist()} but the "
                                                   f"published rule gives {want.ravel()[:4].tolist()}; hp={hp} frozen={frozen} "
                                                   f"dtype={c['dtype']} history={hist}")
@@ -212,7 +242,7 @@ def check_history(c, rec):
                 flags.add("step_without_zero_grad")
             flags.add("had_step")
             last_was_step = True
-    nt = nsteps >= 2 and (bool({"accumulated_backward", "step_without_zero_grad", "step_with_gradless_param"} & flags) or hp["maximize"]
+    nt = nsteps >= 2 and (bool({"accumulated_backward", "step_without_zero_grad", "step_with_gradless_param", "requires_grad_toggled"} & flags) or hp["maximize"]
                           or (kind == "sgd" and hp["momentum"] != 0 and (hp["dampening"] != 0 or hp["nesterov"]))
                           or (hp["weight_decay"] != 0 and any(frozen)))
     rec.nontrivial(nt)
